@@ -20,6 +20,11 @@ CHECK_DEADLOCK FALSE
 '''
 
 
+# what the tree does: since fix eb377cd a failed request forgets the cache keys it set (CacheSetBeforeInsert = FALSE at history
+# grain); the TRUE model stays as a mutation that TLC must still refute (the deviation constant is not vacuous)
+CODED_CACHE_BEFORE = False
+
+
 def model_check(zone, cache_before):
     cfg = 'MC_SeriesIndex_%s_%s.cfg' % (zone, 'TRUE' if cache_before else 'FALSE')
     res = vlib.tlc(SPECDIR, 'MC_SeriesIndex.tla', cfg, timeout=600)
@@ -31,7 +36,7 @@ def model_check(zone, cache_before):
 
 
 def behaviours(zone, n, seed):
-    res = vlib.tlc(SPECDIR, 'MC_SeriesIndex.tla', 'MC_SeriesIndex_%s_TRUE_sim.cfg' % zone, workers=1, timeout=600,
+    res = vlib.tlc(SPECDIR, 'MC_SeriesIndex.tla', 'MC_SeriesIndex_%s_%s_sim.cfg' % (zone, 'TRUE' if CODED_CACHE_BEFORE else 'FALSE'), workers=1, timeout=600,
                    simulate={'num': n, 'file': True}, depth=12, seed=seed)
     try:
         return vlib.behaviours(res)
@@ -55,7 +60,7 @@ def run(tier):
                 mcs.append(mc)
                 states += mc['states']
                 trans += mc['transitions']
-            if any(m['violated'] for m in mcs if m['zone'] == z and m['cache_set_before_insert']):
+            if any(m['violated'] for m in mcs if m['zone'] == z and m['cache_set_before_insert'] == CODED_CACHE_BEFORE):
                 candidates.add(z)
         # ---- replay of TLC behaviours into the real code, under the matching process time zone
         nb = 60 if tier == 'quick' else 600
